@@ -121,7 +121,10 @@ def build_lib(variant='plain'):
     under /verif/.cache keyed by the content hash of the tree, so an edited tree is rebuilt
     and an unchanged one is reused."""
     comp, cflags, cmargs = VARIANTS[variant]
-    key = '%s-%s' % (repo_hash(), variant)
+    # the key covers the tree's content AND its location: the recorded -I paths point into REPO, so a
+    # scratch copy with the same content as an already cached tree must not reuse that entry
+    loc = '' if REPO == '/repo' else '-' + hashlib.sha256(os.path.abspath(REPO).encode()).hexdigest()[:8]
+    key = '%s%s-%s' % (repo_hash(), loc, variant)
     d = os.path.join(CACHE, 'lib', key)
     with Lock('lib-' + variant):
         if os.path.exists(os.path.join(d, 'verif_meta.json')):
